@@ -3,6 +3,7 @@ package types
 import (
 	fmt "fmt"
 
+	sdk "github.com/cosmos/cosmos-sdk/types"
 	"gopkg.in/yaml.v2"
 )
 
@@ -45,6 +46,10 @@ func validateDenom(v interface{}) error {
 
 	if len(denom) == 0 {
 		return fmt.Errorf("denom cannot be empty")
+	}
+	// sdk.NewCoin panics on a denom that is not a valid coin denomination
+	if err := sdk.ValidateDenom(denom); err != nil {
+		return err
 	}
 
 	return nil
